@@ -211,7 +211,7 @@ func e14Controller(P time.Duration, lr float64, slowAccept bool, closeAt int, vi
 		if gs := kit.Census(); len(gs) > 0 {
 			r.V("C13", "goroutine-leak", "after controller shutdown %d library goroutines remain: %v", len(gs), kit.CensusKeys(gs))
 		}
-		if injDelta := core.Injected() - injBefore; took-injDelta > time.Second {
+		if injDelta := core.Injected() - injBefore; took-injDelta > time.Second+per { // +per: a sleep already in progress when Close was called
 			r.V("C13", "shutdown-slow", "controller took %v of virtual time to stop (of which %v were injected collaborator delays)", took, injDelta)
 		}
 		// consumption instants are not observable from outside: use the list's return
